@@ -185,7 +185,8 @@ class Interp:
         self.max_blocks = 2_000_000
         self.native = None
         self.int_enum_limit = 64
-        self.query_timeout_ms = 30000
+        import os as _os
+        self.query_timeout_ms = int(_os.environ.get('VERIF_QTO_MS', '30000'))
         self._alt_model = None
         self.quick = Quick(self)
         self.reset_path([])
